@@ -66,6 +66,7 @@ def x86_unit(res, group=None):
         return dict(replay="c12_x86", args=dict(a=a, b=b), key=f"x86:{S.x86_family(a)}/{S.x86_family(b)}")
 
     n = res.add_paths(paths, post, concretize=conc)
+    res.add_diff(paths, "d_c12_x86", lambda m, p: dict(a=p.extra["a"].concretize(m), b=p.extra["b"].concretize(m)))
     res.note(f"{len(paths)} paths, {n} returning; names: {len(names)} x any case")
     return res
 
@@ -118,6 +119,7 @@ def a64_unit(res):
         return dict(replay="c12_a64", args=dict(a=a, b=b), key=f"a64:{S.a64_class(a[0])}/{S.a64_class(b[0])}")
 
     n = res.add_paths(paths, post, concretize=conc)
+    res.add_diff(paths, "d_c12_a64", lambda m, p: dict(a=[p.extra["pa"].concretize(m), p.extra["na"].concretize(m)], b=[p.extra["pb"].concretize(m), p.extra["nb"].concretize(m)]))
     res.note(f"{len(paths)} paths, {n} returning")
     return res
 
